@@ -2,7 +2,11 @@
 // below seeds exactly the receiver write named in selftest/expected.json; cleanAuth seeds none.
 package authenticators
 
-import "sort"
+import (
+	"maps"
+	"slices"
+	"sort"
+)
 
 type Authenticator interface {
 	Execute() error
@@ -47,7 +51,7 @@ func (a *cleanAuth) WithConfig(map[string]any) (Authenticator, error) {
 // ---- Store to a field
 type storeAuth struct{ n int }
 
-func (a *storeAuth) Execute() error                                    { a.n++; return nil }
+func (a *storeAuth) Execute() error                                   { a.n++; return nil }
 func (a *storeAuth) WithConfig(map[string]any) (Authenticator, error) { return a, nil }
 
 // ---- MapUpdate through a helper that receives the map
@@ -59,7 +63,7 @@ func setDefault(m map[string]string) {
 	}
 }
 
-func (a *mapAuth) Execute() error                                    { setDefault(a.e.headers); return nil }
+func (a *mapAuth) Execute() error                                   { setDefault(a.e.headers); return nil }
 func (a *mapAuth) WithConfig(map[string]any) (Authenticator, error) { return a, nil }
 
 // ---- append into the shared backing array in WithConfig
@@ -113,7 +117,7 @@ var lastSeen string
 
 type globalAuth struct{ id string }
 
-func (a *globalAuth) Execute() error                                    { lastSeen = a.id; return nil }
+func (a *globalAuth) Execute() error                                   { lastSeen = a.id; return nil }
 func (a *globalAuth) WithConfig(map[string]any) (Authenticator, error) { return a, nil }
 
 // ---- store in a method of an embedded pointer
@@ -123,7 +127,7 @@ func (i *inner) touch() { i.hits++ }
 
 type embedAuth struct{ *inner }
 
-func (a *embedAuth) Execute() error                                    { a.touch(); return nil }
+func (a *embedAuth) Execute() error                                   { a.touch(); return nil }
 func (a *embedAuth) WithConfig(map[string]any) (Authenticator, error) { return a, nil }
 
 // ---- delete / copy / clear
@@ -148,14 +152,122 @@ func (c *counter) Do() { c.c++ }
 
 type ifaceAuth struct{ d dep }
 
-func (a *ifaceAuth) Execute() error                                    { a.d.Do(); return nil }
+func (a *ifaceAuth) Execute() error                                   { a.d.Do(); return nil }
 func (a *ifaceAuth) WithConfig(map[string]any) (Authenticator, error) { return a, nil }
 
 // ---- receiver-held slice handed to code outside the module that writes its argument
 type sortAuth struct{ s []string }
 
-func (a *sortAuth) Execute() error                                    { sort.Strings(a.s); return nil }
+func (a *sortAuth) Execute() error                                   { sort.Strings(a.s); return nil }
 func (a *sortAuth) WithConfig(map[string]any) (Authenticator, error) { return a, nil }
 
 // keep the constructors referenced
 var _ = []any{newClosureAuth, &ifaceAuth{d: &counter{}}}
+
+// ---- generic functions of std slices / maps / iter
+type item struct{ n int }
+
+// pure ones on receiver-held maps and slices: no effect
+type pureGenAuth struct {
+	m     map[string]string
+	s     []string
+	items []*item
+	ptrs  map[string]*item
+}
+
+func (a *pureGenAuth) Execute() error {
+	n := 0
+
+	for _, k := range slices.Sorted(maps.Keys(a.m)) {
+		n += len(a.m[k])
+	}
+
+	for k, v := range maps.All(a.m) {
+		n += len(k) + len(v)
+	}
+
+	for v := range slices.Values(a.s) {
+		n += len(v)
+	}
+
+	for k := range maps.Keys(a.ptrs) {
+		n += len(k)
+	}
+
+	vals := slices.Collect(maps.Values(a.m))
+	slices.Sort(vals) // a fresh slice: sorting it is no receiver write
+
+	c := slices.Clone(a.items)
+	slices.SortFunc(c, func(x, y *item) int { return x.n - y.n })
+
+	_ = slices.Contains(a.s, "x")
+	_ = slices.Index(a.s, "x")
+	_ = slices.Equal(a.s, vals)
+	_ = slices.Compare(a.s, vals)
+	_, _ = slices.BinarySearch(a.s, "x")
+	_ = slices.IndexFunc(a.items, func(p *item) bool { return p.n > 0 })
+	_ = slices.ContainsFunc(a.items, func(p *item) bool { return p.n > n })
+
+	if len(a.s) > 0 {
+		_ = slices.Max(a.s)
+		_ = slices.Min(a.s)
+	}
+
+	return nil
+}
+
+func (a *pureGenAuth) WithConfig(map[string]any) (Authenticator, error) {
+	return &pureGenAuth{m: maps.Clone(a.m), s: slices.Clone(a.s), items: a.items, ptrs: a.ptrs}, nil
+}
+
+// in-place ones on receiver-held maps and slices: each is a write of its first argument
+type inplaceGenAuth struct {
+	m map[string]string
+	s []string
+}
+
+func (a *inplaceGenAuth) Execute() error { slices.Sort(a.s); return nil }
+func (a *inplaceGenAuth) WithConfig(c map[string]any) (Authenticator, error) {
+	maps.Copy(a.m, map[string]string{"k": "v"})
+	return a, nil
+}
+func (a *inplaceGenAuth) reverse() { slices.Reverse(a.s) }
+func (a *inplaceGenAuth) insert()  { _ = slices.Insert(a.s, 0, "x") }
+func (a *inplaceGenAuth) del()     { _ = slices.Delete(a.s, 0, 1) }
+func (a *inplaceGenAuth) compact() { _ = slices.Compact(a.s) }
+func (a *inplaceGenAuth) grow()    { _ = slices.Grow(a.s, 4) }
+func (a *inplaceGenAuth) clip()    { _ = slices.Clip(a.s) }
+func (a *inplaceGenAuth) sortFunc() {
+	slices.SortFunc(a.s, func(x, y string) int { return len(x) - len(y) })
+}
+func (a *inplaceGenAuth) deleteFunc() {
+	_ = slices.DeleteFunc(a.s, func(x string) bool { return x == "" })
+}
+
+// callbacks and loop bodies that write through the elements they are handed
+type callbackGenAuth struct {
+	items []*item
+	ptrs  map[string]*item
+}
+
+func (a *callbackGenAuth) Execute() error {
+	_ = slices.ContainsFunc(a.items, func(p *item) bool { p.n++; return false })
+
+	return nil
+}
+
+func (a *callbackGenAuth) WithConfig(map[string]any) (Authenticator, error) {
+	for _, p := range maps.All(a.ptrs) {
+		p.n = 0
+	}
+
+	return a, nil
+}
+
+func (a *callbackGenAuth) viaClone() {
+	c := slices.Clone(a.items)
+	slices.SortFunc(c, func(x, y *item) int { x.n++; return x.n - y.n })
+}
+
+var _ = []any{(*inplaceGenAuth).reverse, (*inplaceGenAuth).insert, (*inplaceGenAuth).del, (*inplaceGenAuth).compact, (*inplaceGenAuth).grow,
+	(*inplaceGenAuth).clip, (*inplaceGenAuth).sortFunc, (*inplaceGenAuth).deleteFunc, (*callbackGenAuth).viaClone}
